@@ -1006,9 +1006,8 @@ Definition visit_alias (name : string) (value : expr) : M (list stmt) :=
                          go l' (k + 1)
                      end) ids 0;;;
                   ret ids
-              | Some (IdxList [IExpr (ELit (VInt i))]) => validate_index i size;;; ret [i]
               | Some (IdxList [IRange a b c]) => range_ids a b c size
-              | Some (IdxList [_]) => ret []
+              | Some (IdxList [IExpr e]) => v <- eval0 e false None;; i <- as_index v;; validate_index i size;;; ret [i]
               | Some (IdxList _) => verr
               end);;
       modify (fun s =>
@@ -1076,8 +1075,10 @@ Definition process_classical_arg (t : ctype) (fname : string) (actual : expr) : 
       s <- getst;;
       match actual_arg_name actual with
       | Some a =>
-          guard (negb (smemk a (qreg_sizes s))) EValidation;;;
-          guard (check_in_scope s a) EValidation
+          if is_constant_name a then ret tt
+          else
+            guard (negb (smemk a (qreg_sizes s))) EValidation;;;
+            guard (check_in_scope s a) EValidation
       | None => ret tt
       end;;;
       v <- eval0 actual false None;;
